@@ -38,7 +38,8 @@ impl GLWEBlindRetriever {
     where
         A: GLWEInfos,
     {
-        let bit_size: usize = (u32::BITS - (size as u32 - 1).leading_zeros()) as usize;
+        // At least one accumulator: a retriever for a single input still has to hold that input.
+        let bit_size: usize = ((u32::BITS - (size as u32 - 1).leading_zeros()) as usize).max(1);
         Self {
             accumulators: (0..bit_size).map(|_| Accumulator::alloc(infos)).collect_vec(),
             counter: 0,
